@@ -17,11 +17,13 @@ import FsModel.BulkDriver
 import FsModel.GlobDriver
 import FsModel.ConcDriver
 import FsModel.InfoDriver
+import FsModel.OsDriver
+import FsModel.WrapDriver2
 
 open Fs
 
 def handlers : List (String → List String → Option String) :=
-  [ PathDriver.handle, RefDriver.handle, FileDriver.handle, CopyDriver.handle, ArchiveDriver.handle, RouteDriver.handle, FaultDriver.handle, GuardDriver.handle, ParseDriver.handle, WalkDriver.handle, ConfineDriver.handle, BulkDriver.handle, GlobDriver.handle, ConcDriver.handle, InfoDriver.handle ]
+  [ PathDriver.handle, RefDriver.handle, FileDriver.handle, CopyDriver.handle, ArchiveDriver.handle, RouteDriver.handle, FaultDriver.handle, GuardDriver.handle, ParseDriver.handle, WalkDriver.handle, ConfineDriver.handle, BulkDriver.handle, GlobDriver.handle, ConcDriver.handle, InfoDriver.handle, OsDriver.handle, WrapDriver2.handle ]
 
 def dispatch (line : String) : String :=
   match (line.trimAscii.toString.splitOn " ").filter (· ≠ "") with
